@@ -81,12 +81,12 @@ theorem step_value_multi {cfg : Cfg} {vs : List View} (wf : GroupWF cfg vs) {H :
     simp only [Res.bind_ok, Res.pure_eq]
     refine Or.inr ⟨rfl, _, rfl, hinv_assign hinv hv hiv hd hok, ?_⟩
     rw [hvs]
-    obtain ⟨_, _, _, _, e4, _, _, _⟩ := assignValue_ok hok
+    obtain ⟨_, _, _, _, e4, _, _, _⟩ := assignValue_ok_g hok
     apply GRel_join
     · exact GRel_clear rpre (fun w hw hw' hm =>
         (memrel_other_assign wf hd hl hok (hpre_vs w hw) (hpre_notmem w hw) hm).2)
     · exact ⟨rfl, rmem.globals.trans (by
-          obtain ⟨_, _, _, e3, _⟩ := assignValue_ok hok
+          obtain ⟨_, _, _, e3, _⟩ := assignValue_ok_g hok
           rw [e3]), rfl, by rw [e4, hl]; exact hlast.trans hloc.symm, rmem.inverted, rmem.fromSrc⟩
     · cases isKey with
       | true =>
